@@ -52,4 +52,80 @@ def libLower (v : Val) : Res Val := wrapped lowerLeaf v [] []
 def libUpper (v : Val) : Res Val := wrapped upperLeaf v [] []
 def libStrip (v : Val) : Res Val := wrapped stripLeaf v [] []
 
+/-! ### `split` with a one-character separator (round k6)
+
+      _split(text, sep = ' ', dedup = False):  res = text.split(sep); if dedup: res = [word for word in res if word]     (_txt.py:167-183)
+
+  for `sep` a string of ONE character and `dedup` a bool (a list of separators goes through `_replace` first: not modelled).
+  ASSUMPTION (sampled by correspondence): `str.split(sep)` cuts at every occurrence of the character; `n` occurrences give `n + 1`
+  words, empty ones included. -/
+
+/-- the first word and the remaining words -/
+def splitAux (sep : Char) : List Char → List Char × List (List Char)
+  | [] => ([], [])
+  | c :: cs =>
+    let r := splitAux sep cs
+    if c = sep then ([], r.1 :: r.2) else (c :: r.1, r.2)
+
+/-- `text.split(sep)` -/
+def splitChars (sep : Char) (cs : List Char) : List (List Char) := (splitAux sep cs).1 :: (splitAux sep cs).2
+
+/-- `sep.join(w :: ws)` -/
+def joinChars (sep : Char) (w : List Char) (ws : List (List Char)) : List Char := w ++ ws.flatMap fun x => sep :: x
+
+def splitLeaf : LeafFn := fun a args kw =>
+  match args, kw with
+  | [], [("sep", .cell (.str sp)), ("dedup", .cell (.bool d))] =>
+    match sp.toList with
+    | [c] =>
+      match a with
+      | .cell (.str s) =>
+        let ws := splitChars c s.toList
+        let ws := if d then ws.filter (fun w => !w.isEmpty) else ws
+        .ok (.list (ws.map fun w => .cell (.str (String.ofList w))))
+      | v => .ok v
+    | _ => .error .other
+  | _, _ => .error .other
+
+/-- `pyg_base.split(value, sep, dedup)` = `_split(value, sep = sep, dedup = dedup)` -/
+def libSplit (v : Val) (sep : String) (dedup : Bool) : Res Val :=
+  wrapped splitLeaf v [] [("sep", .cell (.str sep)), ("dedup", .cell (.bool dedup))]
+
+/-! ### `replace` of one character (round k6)
+
+      _replace(text, old, new = None):                                                        (_txt.py:55-64)
+          if is_str(text):
+              new = new or ''
+              for arg in as_list(old):
+                  if arg in new: raise ValueError('cannot replace indefinitely ...')
+                  while arg in text: text = text.replace(arg, new)
+          return text
+
+  for `old` a string of ONE character and `new` a string or None: the `while` loop runs at most once (the result holds no `old`
+  since `new` does not).  Several / longer strings to replace are not modelled.
+  ASSUMPTION (sampled): `str.replace(c, new)` puts `new` in the place of every occurrence of the character. -/
+
+/-- `text.replace(old, new)` for a one-character `old` -/
+def replaceChars (old : Char) (new : List Char) (cs : List Char) : List Char :=
+  cs.flatMap fun c => if c = old then new else [c]
+
+/-- `new.join(w :: ws)` -/
+def joinStr (new : List Char) (w : List Char) (ws : List (List Char)) : List Char := w ++ ws.flatMap fun x => new ++ x
+
+def replaceLeaf : LeafFn := fun a args kw =>
+  match args, kw with
+  | [], [("old", .cell (.str o)), ("new", nv)] =>
+    match o.toList, (match nv with | .cell (.str n) => some n.toList | .cell .none => some [] | _ => Option.none) with
+    | [c], some n =>
+      match a with
+      | .cell (.str t) =>
+        if n.contains c then .error .value else .ok (.cell (.str (String.ofList (replaceChars c n t.toList))))
+      | v => .ok v
+    | _, _ => .error .other
+  | _, _ => .error .other
+
+/-- `pyg_base.replace(value, old, new)` = `_replace(value, old = old, new = new)` -/
+def libReplace (v : Val) (old : String) (new : Val) : Res Val :=
+  wrapped replaceLeaf v [] [("old", .cell (.str old)), ("new", new)]
+
 end Pyg
